@@ -52,12 +52,30 @@ def _case(draw, fa, fb):
     ra, rb = _body_radius(a), _body_radius(b)
     u = atoms.unit(draw(atoms.dir_random))
     f = draw(st.sampled_from([0.2, 0.4, 0.6, 0.8]))
-    b["p"] = (np.array(a["p"]) + f * min(ra, rb) * u + 0.3 * max(ra - rb, 0) * u).tolist()
+    # clear partial overlap: the inscribed balls (radii ia, ib) overlap by
+    # pen = f * min(ia, ib) and neither contains the other's centre
+    ia, ib = _inradius(a), _inradius(b)
+    b["p"] = (np.array(a["p"]) + (ia + ib - f * min(ia, ib)) * u).tolist()
     c3["p"] = (np.array(a["p"]) - 0.5 * min(ra, _body_radius(c3)) * u).tolist()
     g = {"R": draw(atoms.rotations(("random", "perm", "special"))),
          "t": draw(st.one_of(atoms.positions(10.0), atoms.pos_ball(300.0)))}
     ym = [draw(st.sampled_from([1.0, 0.01, 100.0, 3.0])) for _ in range(2)]
     return {"a": a, "b": b, "c": c3, "g": g, "ym": ym}
+
+
+def _inradius(c):
+    f = c["factory"]
+    if f == "sphere":
+        return c["radius"]
+    if f == "ellipsoid":
+        return min(c["radii"])
+    if f == "cube":
+        return c["size"] / 2
+    if f == "box":
+        return min(c["size"]) / 2
+    if f == "cylinder":
+        return min(c["radius"], c["length"] / 2)
+    return c["radius"]
 
 
 def strategy(cell):
@@ -246,7 +264,7 @@ def match_known(f, case, known):
                                       "flag-motion", "repeat-differs", "interleave-differs",
                                       "action-reaction", "fresh-differs"):
         Rrel = np.array(case["a"]["R"]).T.dot(np.array(case["b"]["R"]))
-        if atoms.is_signed_perm(Rrel, 1e-9):
+        if float(np.max(np.abs(Rrel))) >= 1.0 - 1e-9:
             return "C16-K1"
     if "C16-K2" in ids and clause in ("swap-force", "swap-torque", "motion-force") and \
             f.get("data", {}).get("explained_by_polygons"):
